@@ -856,6 +856,7 @@ def coq_check_goals(name, goals, shard=60, procs=4):
 
     os.makedirs(common.GEN, exist_ok=True)
     shards = [list(range(i, min(i + shard, len(goals)))) for i in range(0, len(goals), shard)]
+    shard_errors = []
 
     def write(k, idxs, tolerant):
         path = os.path.join(common.GEN, f"Cases_{name}_{k}.v")
@@ -880,25 +881,32 @@ def coq_check_goals(name, goals, shard=60, procs=4):
             pass
 
     def one(k):
+        import time as _time
+
         idxs = shards[k]
-        path = write(k, idxs, False)
-        rc, so, se, _ = common.coqc_file(path, timeout=900)
-        clean(path)
-        if rc == 0:
-            return set()
-        path = write(k, idxs, True)
-        rc, so, se, _ = common.coqc_file(path, timeout=900)
-        clean(path)
-        bad = {int(m) for m in re.findall(r"C14FAIL (\d+)", so + se)}
-        if rc != 0 or not bad:
-            # the file itself does not compile (model / header broken): everything in the shard is undecided
-            return set(idxs)
-        return bad
+        for attempt in range(3):
+            path = write(k, idxs, False)
+            rc, so, se, _ = common.coqc_file(path, timeout=900)
+            clean(path)
+            if rc == 0:
+                return set()
+            path = write(k, idxs, True)
+            rc, so, se, _ = common.coqc_file(path, timeout=900)
+            clean(path)
+            bad = {int(m) for m in re.findall(r"C14FAIL (\d+)", so + se)}
+            if rc == 0 and bad:
+                return bad
+            # the file itself did not compile although every goal is guarded: a library was being rebuilt
+            # concurrently (inconsistent .vo) or coqc was killed - wait and retry before calling it undecided
+            shard_errors.append((k, attempt, (se or "")[-400:]))
+            _time.sleep(6)
+        return set(idxs)
 
     failed = set()
     with ThreadPoolExecutor(max_workers=procs) as ex:
         for part in ex.map(one, range(len(shards))):
             failed |= part
+    coq_check_goals.last_errors = shard_errors
     return failed
 
 
@@ -1002,7 +1010,7 @@ def main():
                             "gSDE full_std/expln/squash, epsilons); every returned log_prob / entropy / std / sample entry becomes an Interval-checked Coq goal (rel 1e-9); "
                             "non-trivial = batch >= 2 or >= 2 action dimensions / >= 3 categories; evaluations = Coq goals + Python oracle checks")
     chk.notes["input_distribution"] = hist
-    chk.notes["interval_goals"] = {"total": len(goals), "failed": len(failed), "by_kind": ghist}
+    chk.notes["interval_goals"] = {"total": len(goals), "failed": len(failed), "by_kind": ghist, "shard_compile_retries": getattr(coq_check_goals, "last_errors", [])[:4]}
     chk.notes["corpus_cases"] = n_corpus
     chk.add_samples([{k: v for k, v in cases[i].items() if k not in ("id",)} for i in (n_corpus, n_corpus + 1)])
     chk.assumptions += [
